@@ -1,6 +1,7 @@
 """./check <PROP> [quick|thorough] | ./check replay <path> | ./check unit <unit> | ./check baseline"""
 import json
 import os
+import re
 import sys
 import time
 
@@ -58,19 +59,55 @@ def match_limit(limits, oid, fail):
 
 
 ALL_CLASSES = ("safety", "functional", "proof-internal")
+_LEAVES = {}
 
 
 def _rules(spec, u):
-    """spec["units"][u] is (selection, classes) or a list of such pairs (first matching rule wins)."""
+    """spec["units"][u] is (selection, classes[, topic]) or a list of such tuples (first matching rule wins)."""
     v = spec["units"][u]
-    return v if isinstance(v, list) else [v]
+    v = v if isinstance(v, list) else [v]
+    return [(x[0], x[1], x[2] if len(x) > 2 else None) for x in v]
 
 
 def _rule_for(spec, u, qual):
-    for sel, classes in _rules(spec, u):
+    for sel, classes, topic in _rules(spec, u):
         if sel is None or qual in sel:
-            return sel, classes
+            return sel, classes, topic
     return None
+
+
+# Which property a failed clause speaks about (DESIGN.md 2.3): the units of the VM mix select / scheduling semantics with
+# heap accounting in one contract, so a failure is attributed by the vocabulary of the failing conjunct.
+_ACCT = re.compile(r"refcounts|\bocc\(|occ_seq|proc_roots|all_roots|select_held|\brooted\b|heap_wf|\bfreed\b|pending_free|balanced|proc_ok|proc_counted|select_counted|awaiting_counted|can_release|can_retain|counts_small|\.heap\b|heap\.len|\bheap\)|allocated|injected|reclaimed|only_counts_and_process|same_but_counts|nothing_reclaimed|spec_vec_len\(.*heap")
+# representation invariants that some other function's safety precondition relies on (an index, an unwrap, a counter):
+# a producer that breaks one of them makes a worker panic downstream
+_SAFEINV = re.compile(r"select_wf|receiving_ok|cursors(@|\.view\(\))\.len\(\)|frames_fn_ok|frames_fn_kept|table_sane|table_fn_ok|proc_sane|callers_can_advance|stack_small|frames_ok|counter_ok|processes(@|\.view\(\))\.(dom\(\)|contains_key)")
+_FAIL = re.compile(r"failed_is_finished|\.result\b|frames(@|\.view\(\))\.len\(\) == 0")
+
+
+def _failure_text(f, leaves):
+    if f["class"] == "functional" and leaves:
+        return " ;; ".join(leaves)
+    return " ".join(str(x) for x in (f.get("clause"), f.get("expr")) if x)
+
+
+def _topic_ok(topic, f, leaves):
+    if topic is None or f.get("taints"):
+        return True
+    text = _failure_text(f, leaves)
+    acct = bool(_ACCT.search(text))
+    if topic == "acct":
+        return acct
+    if topic == "sem":
+        # pure semantics: some failing conjunct that is not about the counts
+        if f["class"] == "functional" and leaves:
+            return any(not _ACCT.search(x) for x in leaves)
+        return not acct
+    if topic == "crash":
+        # C15: every safety obligation; of the others those whose failure is a debug-build panic (a count that drifts)
+        # or the failure-containment clauses of step
+        return f["class"] == "safety" or acct or bool(_FAIL.search(text)) or bool(_SAFEINV.search(text))
+    return True
 
 
 def _selected(spec, u, qual):
@@ -137,11 +174,13 @@ def check_property(prop, tier):
         r = results[u]
         for oid, ob in r.obligations.items():
             classes = ALL_CLASSES
+            topic = None
             if ob["kind"] == "fn":
                 rule = _rule_for(spec, u, ob["qual"])
                 if rule is None:
                     continue
                 classes = rule[1]
+                topic = rule[2]
             if ob["kind"] == "lemma":
                 # lemmas carry no repository code; a failing lemma is an infrastructure problem
                 if ob["status"] != "ok":
@@ -153,6 +192,16 @@ def check_property(prop, tier):
             lim_hits = [k for f, k in lim if k is not None]
             fails = [f for f, k in lim if k is None]
             rel_fail = [f for f in fails if f["class"] in classes]
+            if topic is not None and rel_fail:
+                leaves = []
+                if any(f["class"] == "functional" for f in rel_fail) and r.gen_path:
+                    key = (r.gen_path, ob["qual"])
+                    if key not in _LEAVES:
+                        from . import runner as _runner
+
+                        _LEAVES[key] = _runner.expand_leaves(r.gen_path, ob["qual"])
+                    leaves = _LEAVES[key]
+                rel_fail = [f for f in rel_fail if _topic_ok(topic, f, leaves)]
             res_fail = [f for f in fails if f["class"] == "resource"]
             status = "ok"
             if ob["status"] == "undecided":
@@ -294,9 +343,12 @@ def check_property(prop, tier):
     # Same idea for the VM properties: when a function of theirs can no longer be decided (lost anchor, text outside
     # the dialect), the small program corpus runs on the real quiv binary built from this tree.  A program that
     # misbehaves is a violation with a replayable input; none found leaves the property undecided (exit 2).
-    if prop in ("C05", "C06", "C13", "C16") and not violations:
+    if prop in ("C05", "C06", "C13", "C15", "C16") and not violations:
         und_units = [u for u in units if any(("does not compile" in x or x.startswith("extract")) for x in results[u].infra)
                      or any(ob.get("kind") == "fn" and ob.get("status") == "undecided" and _selected(spec, u, ob.get("qual")) for ob in results[u].obligations.values())]
+        if prop == "C15":
+            # builtin / rope units have their own stand-in (the boundary differential above); programs are for the VM
+            und_units = [u for u in und_units if u in ("heap", "handlers", "coldpath", "select", "step", "equality", "transfer")]
         if und_units:
             if "transfer" in und_units or "coldpath" in und_units:
                 # cross-heap transfer on the real code: build / extract / inject / compare for a fixed list of values
